@@ -15,7 +15,9 @@ RULE = ("one case = an identity (random subset of object ids 0-6 / 0x80-0xFF, va
         "(plus 0, 5, 6, 255 for the guard), start ids = 0, every populated id, category edges (2,3,6,7,8,0x7f,0x80,0xff) "
         "and, for one multi-page identity, all 256 start ids x 4 codes; direct-execute cases for out-of-byte-range "
         "fields; suite multi: bytes / ASCII str / non-ASCII str / list values (0-4 items), split and no-split "
-        "constellations.  The ModbusControlBlock identity (a class-level dict) is reset between cases.  non-trivial = a normal "
+        "constellations; suite config: the identity is configured ONLY through histories of the public API "
+        "(constructor, update, item assignment, named properties; withdrawal by blank values, re-configuration), "
+        "expected objects from the final configured map.  The ModbusControlBlock identity (a class-level dict) is reset between cases.  non-trivial = a normal "
         "response with at least one object; distinct = distinct Coq case terms")
 TRUSTED = [
     "generated from source on every run (Generated/GenDevInfo.v): 253 - 6, 2 + len(data), <= 0, the range bounds and "
@@ -258,7 +260,125 @@ def suite_starts(tier):
 
 
 def suites(tier):
-    return [suite_chain(tier), suite_starts(tier), suite_multi(tier)]
+    return [suite_chain(tier), suite_starts(tier), suite_multi(tier), suite_config(tier)]
+
+
+# ----------------------------------------------------------------------------- configuration histories
+
+PROP_NAMES = ["VendorName", "ProductCode", "MajorMinorRevision", "VendorUrl", "ProductName", "ModelName",
+              "UserApplicationName"]
+
+
+def apply_history(hist):
+    """configure the process-wide identity through the PUBLIC API only, in order"""
+    from pymodbus.device import ModbusDeviceIdentification
+    mcb = reset_identity()
+    for op in hist:
+        if op[0] == "init":
+            ModbusDeviceIdentification(info=dict(op[1]))          # shares the class-level dict
+        elif op[0] == "update":
+            mcb.Identity.update(dict(op[1]))
+        elif op[0] == "set":
+            mcb.Identity[op[1]] = op[2]
+        elif op[0] == "prop":
+            setattr(mcb.Identity, op[1], op[2])
+    return mcb
+
+
+def op_term(op):
+    if op[0] in ("init", "update"):
+        return "%s %s" % ("CInit" if op[0] == "init" else "CUpdate", objs_term([(k, _b(v)) for k, v in op[1]]))
+    if op[0] == "set":
+        return "CSetItem %s %s" % (z(op[1]), bterm(_b(op[2])))
+    return "CProp %s %s" % ('"%s"%%string' % op[1], bterm(_b(op[2])))
+
+
+def _b(v):
+    return v.encode() if isinstance(v, str) else bytes(v)
+
+
+def final_map(hist):
+    """spec-side bookkeeping for descriptions / limits only: last write per id"""
+    m = {}
+    for op in hist:
+        if op[0] in ("init", "update"):
+            for k, v in op[1]:
+                m[k] = _b(v)
+        elif op[0] == "set":
+            m[op[1]] = _b(op[2])
+        else:
+            m[PROP_NAMES.index(op[1])] = _b(op[2])
+    return m
+
+
+def cfg_case(hist, code, oid, label):
+    apply_history(hist)
+    writes = sum(len(op[1]) if op[0] in ("init", "update") else 1 for op in hist)
+    limit = writes + 3
+    steps, end = follow(code, oid, limit)
+    reset_identity()
+    term = "{| cf_hist := %s; cf_code := %s; cf_oid := %s; cf_limit := %s; cf_obs := %s; cf_end := %s |}" % (
+        lst(op_term(op) for op in hist), z(code), z(oid), nat(limit), lst(obs_term(o) for o in steps), end)
+    fm = final_map(hist)
+    desc = {"history": [[op[0]] + [([[k, len(v)] for k, v in op[1]] if op[0] in ("init", "update") else
+                                    [op[1], len(op[2])])] for op in hist],
+            "identity": [[k, len(v), v[:2].hex()] for k, v in sorted(fm.items())],
+            "code": code, "oid": oid, "limit": limit, "end": end, "pages": len(steps), "config": True,
+            "observed": [[o[0]] + [x for x in o[1:8]] if o[0] == "resp" else list(o) for o in steps][:8]}
+    return Case(term, desc, kind=label, nontrivial=any(o[0] == "resp" and o[7] > 0 for o in steps))
+
+
+def gen_history(r):
+    """2-5 operations over a small pool of ids: configure, withdraw by a blank value, re-configure"""
+    pool = sorted(r.sample(range(0, 7), r.choice([2, 3, 4])) + r.sample(range(0x80, 0x100), r.choice([1, 2, 3])))
+    hist = []
+
+    def val(k, blank_p):
+        if r.random() < blank_p:
+            return r.choice([b"", ""])
+        n = r.choice([1, 2, 5, 30, 100, 120, 124, 200, 243, 244])
+        v = gen_value(r, k, n)
+        return v.decode("latin-1") if (r.random() < 0.3 and all(b < 128 for b in v)) else v
+    for step in range(r.choice([2, 3, 4, 5])):
+        blank_p = 0.0 if step == 0 else 0.45
+        t = r.random()
+        if t < 0.45:
+            ks = r.sample(pool, r.choice([1, 2, min(3, len(pool))]))
+            hist.append(("update", [(k, val(k, blank_p)) for k in ks]))
+        elif t < 0.65:
+            k = r.choice(pool)
+            hist.append(("set", k, val(k, blank_p)))
+        elif t < 0.8:
+            k = r.choice([x for x in pool if x < 7])
+            hist.append(("prop", PROP_NAMES[k], val(k, blank_p)))
+        else:
+            ks = r.sample(pool, r.choice([1, 2]))
+            extra = [(r.choice([7, 8, 9, 0x7f, 0x100, -1]), b"zz")] if r.random() < 0.3 else []   # filtered by the constructor
+            hist.append(("init", [(k, val(k, blank_p)) for k in ks] + extra))
+    return hist, pool
+
+
+def suite_config(tier):
+    r = common.rng("C20.config")
+    cases = []
+    fixed = [
+        [("update", [(0, b"Vendor"), (1, b"PC"), (2, b"1.0"), (6, b"App"), (0x80, b"priv")]), ("update", [(6, ""), (0x80, "")])],
+        [("init", [(0, "V"), (3, "http://x"), (0x90, b"q" * 200)]), ("set", 3, ""), ("prop", "VendorName", "W")],
+        [("prop", "ProductName", "P"), ("update", [(4, b"")]), ("update", [(4, b"again")])],
+        [("set", 7, b"r"), ("set", 8, b"r"), ("set", 2, b"rev"), ("update", [(2, b"")])],
+    ]
+    for hist in fixed:
+        ids = sorted({k for k in final_map(hist)} | {0})
+        for code in (1, 2, 3, 4):
+            for oid in ids:
+                if 0 <= oid <= 255:
+                    cases.append(cfg_case(hist, code, oid, "config-fixed"))
+    for _ in range(60 if tier == "quick" else 600):
+        hist, pool = gen_history(r)
+        for code in (1, 2, 3, 4):
+            for oid in sorted({0} | set(r.sample(pool, min(2, len(pool))))):
+                cases.append(cfg_case(hist, code, oid, "config-random"))
+    return Suite("config", IMPORTS, "chk_cfg code", cases, shard=150)
 
 
 # ----------------------------------------------------------------------------- multi-item and text values
